@@ -31,6 +31,14 @@ impl Label {
 //@item src/lib/util/interpreter_util.rs enum State
 //@item src/lib/util/interpreter_util.rs struct Context
 
+/// every jump target / procedure entry / return position is an index of the emitted list or one past it (the same predicate is
+/// ASSUMED of `Interpreter::parse` as a whole in unit `driver`; here it is proved for the productions that produce targets)
+pub open spec fn targets_ok(c: &Context, bound: int) -> bool {
+    (forall|s: String| #[trigger] c.label_map@.contains_key(s) && c.label_map@[s].r#type is CODE ==> c.label_map@[s].map <= bound)
+    && (forall|s: String| #[trigger] c.fn_map@.contains_key(s) ==> c.fn_map@[s] <= bound)
+    && (forall|k: int| 0 <= k < c.call_stack@.len() ==> #[trigger] c.call_stack@[k] <= bound)
+}
+
 //@action src/lib/interpreter/interpreter.rs call = "call", name_string as it_call
 //@contract
     requires vstd::std_specs::hash::obeys_key_model::<String>(), current < usize::MAX,
@@ -41,6 +49,7 @@ impl Label {
         // something that is not a procedure is refused and nothing changes
         !old(context).fn_map@.contains_key(n) ==> r.is_err() && final(context).call_stack@ == old(context).call_stack@,
         final(context).fn_map@ == old(context).fn_map@, final(context).label_map@ == old(context).label_map@,
+        forall|bound: int| #[trigger] targets_ok(old(context), bound) && current < bound ==> targets_ok(final(context), bound) && (r matches Ok(State::JMP(t)) ==> t <= bound), //# C08 it.targets_stay_inside_the_program
 //@end
 
 //@action src/lib/interpreter/interpreter.rs ret = "ret" as it_ret
@@ -51,6 +60,7 @@ impl Label {
             && final(context).call_stack@ == old(context).call_stack@.drop_last(),
         old(context).call_stack@.len() == 0 ==> r.is_err() && final(context).call_stack@ == old(context).call_stack@,
         final(context).fn_map@ == old(context).fn_map@, final(context).label_map@ == old(context).label_map@,
+        forall|bound: int| #[trigger] targets_ok(old(context), bound) ==> targets_ok(final(context), bound) && (r matches Ok(State::JMP(t)) ==> t <= bound), //# C08 it.targets_stay_inside_the_program
 //@end
 
 //@action src/lib/interpreter/interpreter.rs jumps_loops = jumps_condition, name_string as it_jumps_loops
@@ -65,6 +75,7 @@ impl Label {
         !old(context).label_map@.contains_key(n) ==> r.is_err(),
         final(context).fn_map@ == old(context).fn_map@, final(context).label_map@ == old(context).label_map@,
         final(context).call_stack@ == old(context).call_stack@,
+        forall|bound: int| #[trigger] targets_ok(old(context), bound) ==> targets_ok(final(context), bound) && (r matches Ok(State::JMP(t)) ==> t <= bound), //# C08 it.targets_stay_inside_the_program
 //@end
 
 //@action src/lib/interpreter/interpreter.rs int = "int", u_byte_num as it_int
